@@ -63,6 +63,10 @@ VerdictWriter(rec) ==
   ELSE IF \E l \in 1..Len(rec.lines) : \E s \in 1..Len(rec.lines[l].syms) :
             rec.lines[l].syms[s].k = "PAC" /\ rec.lines[l].syms[s].r \notin 1..15 THEN "RowOutside1To15"
   ELSE IF \E l \in 1..Len(rec.lines) : \E s \in 1..Len(rec.lines[l].syms) : rec.lines[l].syms[s].k = "BAD" THEN "UnknownCodeWord"
+  \* hh:mm:ss:ff - minutes and seconds below 60, frames below 30 (a label such as 00:00:10:30 is not
+  \* a timecode, whatever frame count it would add up to)
+  ELSE IF \E l \in 1..Len(rec.lines) : rec.lines[l].tc[2] > 59 \/ rec.lines[l].tc[3] > 59 \/ rec.lines[l].tc[4] > 29
+       THEN "TimecodeFieldOutOfRange"
   ELSE IF \E l \in 1..(Len(rec.lines) - 1) : LineStart(rec.lines[l]) > LineStart(rec.lines[l + 1]) THEN "TimecodesDecrease"
   ELSE IF \E l \in 1..(Len(rec.lines) - 1) : LineStart(rec.lines[l]) + LineWords(rec.lines[l]) > LineStart(rec.lines[l + 1])
        THEN "LineOverlapsTheNext"
